@@ -23,7 +23,7 @@ ASSUMPTIONS = [
     "whitespace is the set str.strip() removes (generated from the interpreter into Gen/Stdlib.v): NBSP at the edge of a text counts as whitespace",
     "entity substitution functions other than substitute_xml are passed to the model as their recorded graph on the strings of the case",
     "the tree handed to the model is read from .contents (C01 ties .contents to the element chain decode() walks)",
-    "HTMLFormatter / XMLFormatter constructors are not used for indent settings (they drop the argument: C15's finding); the base Formatter class is",
+    "indent settings are given through the base Formatter class and through HTMLFormatter / XMLFormatter (which forward them since fix 7ccac6b); the base Formatter class is",
 ]
 
 INDENTS = [None, -2, 0, 1, 3, 8, True, "", "\t", "  ", " \t", "\xa0", "--", 2.5, "OBJ"]
@@ -208,6 +208,16 @@ def check_tree(ctx, batch, origin, root, xml, parsed, every_start=False):
                 configs.append((name, ind, mk_formatter(el, name, ind)))
             except KeyError:
                 continue
+        if el is root:
+            # the flavour's own class with each falsy indent setting (no indentation at all), deterministically
+            base = el.formatter_for_name("minimal")
+            if type(base) is not Formatter:
+                for ind in (0, None, ""):
+                    configs.append(("minimal", ind, type(base)(entity_substitution=base.entity_substitution,
+                                                              void_element_close_prefix=base.void_element_close_prefix,
+                                                              cdata_containing_tags=base.cdata_containing_tags,
+                                                              empty_attributes_are_booleans=base.empty_attributes_are_booleans,
+                                                              indent=ind)))
         for name, ind, f in configs:
             pretty = el.decode(indent_level=0, formatter=f)
             if ind == "registry" and el.prettify(formatter=name) != pretty:
